@@ -32,6 +32,9 @@ NODE = "n0"
 DOWNTIMES = [0.0, 0.2, 1.5, 6.0]
 
 
+REQID = re.compile(r'\\?"RequestId\\?": \\?"[^"\\]*\\?"')
+
+
 def reference(scn, seed):
     """Crash-free run; returns (result, list of steps with flags, ops by step)."""
     info = {"steps": [], "ops": []}
@@ -73,6 +76,7 @@ def outcome(res, arn):
     if isinstance(out, str):
         out = re.sub(r"\(entered at the event id #\d+\)", "(entered at the event id #N)", out)
         out = re.sub(r"timeout value of \d+ seconds", "timeout value of N seconds", out)
+        out = REQID.sub('"RequestId": "#"', out)     # (a correlation id: generated, differs from run to run)
     return (d["status"], out, d.get("error"))
 
 
@@ -150,8 +154,8 @@ def request_counts(res):
     out = {}
     for r in res.world.workers.requests:
         # history-dependent text (event ids start again at 1 after a restart with the in-memory history) removed
-        k = (r["fn"], re.sub(r"\(entered at the event id #\d+\)", "(entered at the event id #N)",
-                             json.dumps(r["payload"], sort_keys=True)))
+        k = (r["fn"], REQID.sub('"RequestId": "#"', re.sub(r"\(entered at the event id #\d+\)", "(entered at the event id #N)",
+                                                            json.dumps(r["payload"], sort_keys=True))))
         out[k] = out.get(k, 0) + 1
     return out
 
